@@ -8,7 +8,11 @@ from ..propsbase import *
 ASSUMPTIONS = ["reference: harness/ref.py with Fractions: add/sub/neg and multiplication by integers exact; products floor(a*b*2^r)/2^r; "
                "quotients floor(a/b*2^r)/2^r; // and % by Python's definitions on the represented numbers; comparisons on the "
                "represented numbers; val() returns representation/2^r; float operands are converted by truncation (int(x * 2^r))",
-               "floats are dyadic literals exactly representable with scaled value below 2^53: IEEE rounding is not modelled"]
+               "floats are dyadic literals exactly representable with scaled value below 2^53: IEEE rounding is not modelled",
+               "augmented assignment (`t = a; t += x`, also -=, *=, /=, //=, %=; instruction `iop`) is applied to a SECOND REFERENCE of a "
+               "fixed-point (or integer / boolean, with a fixed-point operand) value and followed by reads of the original: the reference "
+               "treats values as immutable, the model maps `iop` to the binary operator (no class of the modelled tree defines __iadd__ "
+               "& co, so Python evaluates t = t + x)"]
 PARTIAL = []
 LEVELS = "V"
 FX_KINDS = [("X", "X"), ("X", "X"), ("X", "L"), ("L", "X"), ("X", "I"), ("I", "X"), ("X", "F"), ("F", "X"), ("X", "B"), ("B", "X")]
@@ -71,18 +75,21 @@ def fx_case(rnd, cid, p=common.BN128):
 
 def explore(ctx, extended=False, focus=None):
     ex = Exploration()
-    ex.rule = ("one fixed-point operation per case for every operator in {+,-,*,/,//,%,<,<=,==,!=,>,>=} and every operand type "
+    ex.rule = ("augmented assignments (+=, -=, *=, /=, //=, %=) on a second reference of a value followed by reads of the original; one fixed-point operation per case for every operator in {+,-,*,/,//,%,<,<=,==,!=,>,>=} and every operand type "
                "combination and order among fixed-point, secret int, secret boolean, int and float, at resolutions 0,1,4,8,12, with "
                "negative and fractional values, followed by val()/a further use; compared with the Fraction reference and, at level "
                "V, with the Lean model; distinct = (operator, kinds, resolution, error class)")
     n = ctx.n(3600, 120000) * (3 if extended else 1)
     cases = corpus_cases("C14") + [fx_case(ctx.rnd, f"c14_{i}") for i in range(n)]
+    cases += [progs.inplace_case(ctx.rnd, f"c14i_{i}", fx=True) for i in range(n // 6)]
     for r in execute_all(cases):
         account(ex, r)
         correspond(ex, r, LEVELS)
         m = r.case.meta
         ex.distinct.add((m.get("op"), m.get("kinds"), r.case.cfg["res"], r.errcls))
         ex.count(f"res:{r.case.cfg['res']}")
+        if augmented_assignment_mutations(ex, r):
+            continue        # the registers no longer hold what the reference (immutable values) has
         R = ref.Ref(r.case.cfg)
         R.run([t.split() for t in r.case.instrs])
         for i, got in enumerate(r.regs):
